@@ -204,8 +204,45 @@ func c05Params(c *cx) {
 	c.r.Floor(id, "parameters of the transmit API", n, 40)
 }
 
+// c05FromSource (C05.8): the address stanzaEncoder adds on server-to-server
+// streams is the session's local address (LocalAddr, i.e. what negotiation
+// learned), wherever the encoder is set up; and it is set whenever the stream
+// is a server-to-server stream.
+func c05FromSource(c *cx) {
+	id := "C05.8"
+	n := 0
+	for _, f := range c.allFns() {
+		if !strings.HasPrefix(f.Short, "xmpp.") {
+			continue
+		}
+		g := f.Graph()
+		for _, w := range f.FieldWrites("xmpp.stanzaEncoder.from") {
+			n++
+			pt, _ := g.Where(w.Stmt)
+			v := ""
+			if w.RHS != nil {
+				v = f.Norm(w.RHS, &pt)
+			}
+			ok := eng.Glob("xmpp.Session.LocalAddr[*]()", v) || eng.Glob("*.in.Info.To", v)
+			c.r.Check(id, f, "source of stanzaEncoder.from", "K: the from address added to outgoing stanzas is the session's LocalAddr()", w.Stmt.Pos(), ok, "from is set from "+v)
+			c.dom(id, f, w.Stmt, "from set on server-to-server streams", []string{"eq(*.out.Info.XMLNS,stanza.NSServer)"})
+		}
+		for _, cl := range f.WalkLits("xmpp.stanzaEncoder") {
+			if fv := structLitField(cl, "from"); fv != nil {
+				n++
+				pt, _ := g.Where(cl)
+				v := f.Norm(fv, &pt)
+				ok := eng.Glob("xmpp.Session.LocalAddr[*]()", v) || eng.Glob("*.in.Info.To", v)
+				c.r.Check(id, f, "source of stanzaEncoder.from (literal)", "K: the from address added to outgoing stanzas is the session's LocalAddr()", cl.Pos(), ok, "from is set from "+v)
+			}
+		}
+	}
+	c.r.Floor(id, "writes of stanzaEncoder.from", n, 1)
+}
+
 func c05StanzaEncoder(c *cx) {
 	id := "C05.6"
+	c05FromSource(c)
 	f := c.fn(id, "", "(*stanzaEncoder).EncodeToken")
 	if f == nil {
 		return
